@@ -1,3 +1,4 @@
 pub mod numeral;
 pub mod refarith;
 pub mod regdump;
+pub mod cost;
